@@ -115,6 +115,77 @@ def explore(ck, name, cfg, rounds, per_round, label):
                       mism[0][0], mism[0][1], coq_in[mism[0][0]][1], coq_in[mism[0][0]][0][-300:]))
 
 
+def fs_battery(ck, name, cfg):
+    """the clauses a path analysis cannot see, because folder and file names are HANDLER ARGUMENTS of the file-system level
+    requests: (1) a request naming a deleted / never-existing folder or file is not answered 'success' and changes nothing;
+    (2) a request naming an existing file is carried out on THAT file (also when an earlier file of the same name was deleted)."""
+    rng = ck.rng
+    game = world.make_game(cfg)
+    game.setup_for_episode(0)
+    sim = game.simulation
+    hosts = [n for n in sim.network.nodes.values() if n.config.type in world.HOSTS and n.operating_state.name == "ON"]
+    if not hosts:
+        return
+    node = rng.choice(hosts)
+    h = node.config.hostname
+    base = ["network", "node", h, "file_system"]
+
+    def req(*tail):
+        r = base + list(tail)
+        before = world.norm_state(node.describe_state())
+        try:
+            resp = sim.apply_request(r)
+        except Exception as e:
+            ck.violation("request-raises:file-system:%s" % type(e).__name__, "request %s raised %r" % (r, e), {"scenario": name, "request": r})
+            return None, None, r
+        after = world.norm_state(node.describe_state())
+        ck.evaluations += 1
+        ck.case(canon=(name, "fs", json.dumps(r)), nontrivial=True)
+        return resp.status, world.dict_diff(before, after), r
+
+    def must_refuse(tag, *tail):
+        st, diff, r = req(*tail)
+        if st is None:
+            return
+        if st == "success" or diff:
+            ck.violation("nonexistent-target-served:%s" % tag, "request %s names a %s, yet it was answered %r%s" % (r, tag, st, " and changed the node: %s" % diff[:2] if diff else ""),
+                         {"scenario": name, "request": r, "status": st, "diff": diff[:4] if diff else []})
+
+    fs = node.file_system
+    # (2) same name, new object
+    for rnd in range(2):
+        fo, fi = "vault%d" % rnd, "ledger.txt"
+        req("create", "folder", fo)
+        req("create", "file", fo, fi, False)
+        req("delete", "file", fo, fi)
+        req("create", "file", fo, fi, False)
+        live = fs.get_file(fo, fi)
+        for verb, check in (("scan", None), ("corrupt", "CORRUPT"), ("repair", "GOOD"), ("checkhash", None)):
+            st, diff, r = req("folder", fo, "file", fi, verb)
+            if st is None or live is None:
+                continue
+            if verb in ("corrupt", "repair") and (st != "success" or live.health_status.name != check):
+                ck.violation("request-not-carried-out-on-the-named-file:%s" % verb,
+                             "after create / delete / create of %s/%s, request %s answered %r and the live file's health is %s (expected success and %s)" % (fo, fi, r, st, live.health_status.name, check),
+                             {"scenario": name, "request": r, "status": st, "health": live.health_status.name})
+            if verb == "scan" and st != "success":
+                ck.violation("request-not-carried-out-on-the-named-file:scan", "after create / delete / create of %s/%s, request %s answered %r" % (fo, fi, r, st), {"scenario": name, "request": r, "status": st})
+        # (1) a deleted folder that held files, and names that never existed
+        req("delete", "folder", fo)
+        for tail, tag in ((("restore", "file", fo, fi), "file in a deleted folder"), (("delete", "file", fo, fi), "file in a deleted folder"), (("access", fo, fi), "file in a deleted folder"),
+                          (("folder", fo, "file", fi, "scan"), "file in a deleted folder"), (("folder", fo, "scan"), "deleted folder"),
+                          (("restore", "file", "no_such_folder", "x.txt"), "folder that never existed"), (("delete", "file", "no_such_folder", "x.txt"), "folder that never existed"),
+                          (("restore", "folder", "no_such_folder"), "folder that never existed"), (("delete", "folder", "no_such_folder"), "folder that never existed"),
+                          (("access", "no_such_folder", "x.txt"), "folder that never existed")):
+            must_refuse(tag, *tail)
+        req("restore", "folder", fo)
+        for _ in range(4):
+            game.pre_timestep(); game.advance_timestep()
+        must_refuse("file that never existed", "restore", "file", fo, "never.txt")
+        must_refuse("file that never existed", "delete", "file", fo, "never.txt")
+        must_refuse("file that never existed", "access", fo, "never.txt")
+
+
 def docmask_node(o):
     return o.get("node_name") or o.get("source_node") or o.get("target_nodename") or o.get("target_router") or o.get("target_firewall_nodename")
 
@@ -137,11 +208,13 @@ def run(ck):
     ck.rule = ("requests formed from every registered action type x every component (existing and missing), plus sampled paths of "
                "the live request tree, each also mutated (missing / misspelt / truncated element at any depth of the key path), executed "
                "at states reached by a disrupting random walk (nodes off/booting, services stopped/disabled, files deleted, software "
-               "uninstalled); distinct by (scenario, round, request)")
+               "uninstalled); plus a file-system battery whose folder / file names are handler arguments (same name after delete and re-create; deleted and "
+               "never-existing folders and files); distinct by (scenario, round, request)")
     coq_props(ck)
     gen_tie.check(ck, ["reqtree"])
     for i, (name, cfg) in enumerate(scenarios(ck)):
         explore(ck, name, cfg, rounds=ck.n(5, 12), per_round=ck.n(70, 150), label=str(i))
+        fs_battery(ck, name, cfg)
 
 
 def replay(ck, path):
